@@ -63,7 +63,7 @@ def simplify_cases(draw, tier):
     mode = draw(st.sampled_from(MODES))
     system = []
     for _ in range(nl):
-        what = draw(st.sampled_from(['lin'] * 14 + ['rat'] * 8 + ['band'] * 2 + ['pair'])) if system else \
+        what = draw(st.sampled_from(['lin'] * 14 + ['rat'] * 8 + ['band'] * 2)) if system else \
             draw(st.sampled_from(['lin', 'lin', 'lin', 'rat', 'rat']))
         if what == 'lin':
             system.append(draw(E.linear_relations(n, mode, both_sides=(mode != 'dyadic' or draw(st.booleans())))))
@@ -82,18 +82,38 @@ def simplify_cases(draw, tier):
             system.append(['rel', src[1], cmp, rhs])
     scheme = draw(E.naming_schemes(n))
     style = {'minus': draw(st.booleans()), 'unit': draw(st.booleans())}
+    # solve() falls back to _solve_nonlinear whenever it cannot solve for either of the two leading
+    # candidate variables of a line (absent from it: common with cycle=True / a long target; zero
+    # coefficient; no solution); that builds permutations(x0..xmax) and does not return for max >= 10.
+    # With indices >= 9 the options are therefore left at their defaults and such lines are avoided.
+    big = scheme['kind'] == 'base' and max(scheme['index']) >= 9
+    if big:
+        system = [_no_fallback(r) for r in system]
     target = None
-    if draw(st.integers(0, 2)) == 0:
-        # (two leading target names that are absent from a line send solve() into _solve_nonlinear's
-        # permutations of x0..xmax: with indices >= 9 only one target name is drawn)
-        big = scheme['kind'] == 'base' and max(scheme['index']) >= 9
-        m = 1 if big else draw(st.integers(1, n))
+    if not big and draw(st.integers(0, 2)) == 0:
+        m = draw(st.integers(1, n))
         target = list(draw(st.permutations(list(range(n)))))[:m]
-    opts = {'target': target, 'cycle': draw(st.booleans()), 'all': draw(st.integers(0, 6)) != 0}
+    opts = {'target': target, 'cycle': (not big) and draw(st.booleans()), 'all': draw(st.integers(0, 6)) != 0}
     pk = 'dyadic' if mode == 'dyadic' else 'mixed'
     pts = draw(st.lists(E.points(n, pk), min_size=8, max_size=8))
     return dict(nvars=n, system=system, scheme=scheme, style=style, opts=opts, points=pts,
                 seed=draw(st.integers(0, 2 ** 31 - 1)))
+
+
+def _no_fallback(rel):
+    """the same relation without what makes solve() give up on the two leading candidate variables
+    (zero-coefficient terms; a/x_k compared with 0, which has no solved form)"""
+    def strip(t):
+        if t[0] == 'lin':
+            terms = [[i, c] for i, c in t[1] if float(c) != 0]
+            return ['lin', terms, t[2]]
+        if t[0] in ('const', 'var'):
+            return t
+        return [t[0]] + [strip(x) if isinstance(x, list) else x for x in t[1:]]
+    lhs, cmp, rhs = strip(rel[1]), rel[2], strip(rel[3])
+    if lhs[0] == 'div' and lhs[1][0] == 'const' and rhs[0] == 'const' and float(rhs[1]) == 0:
+        rhs = ['const', 1.0]
+    return ['rel', lhs, cmp, rhs]
 
 
 def exact_tree(t):
@@ -166,9 +186,17 @@ def simplify_points(case):
             if q is None:
                 continue
             sides = [_nudge(q, var, 1e-3), _nudge(q, var, -1e-3)]
-            ms = [E.rel_margin(rel, x) for x in sides]
             m0 = E.rel_margin(rel, q)
-            vouched = rel[2] == '=' and m0 is not None and m0 <= IN_BAND[0] and all(m is not None and m >= 1e-5 for m in ms)
+            vouched = rel[2] == '=' and m0 is not None and m0 <= IN_BAND[0]
+            if vouched:
+                # every variable of the line must matter at q (whichever one mystic isolates, the
+                # isolated form is then as well conditioned as the line itself)
+                for v in vs:
+                    if float(dict(E.net_coefficients(rel[1], rel[3])).get(v, 1.0) if rel[1][0] == rel[3][0] == 'lin' else 1.0) == 0:
+                        continue
+                    ms = [E.rel_margin(rel, _nudge(q, v, d)) for d in (1e-3, -1e-3)]
+                    if not all(m is not None and m >= 1e-5 for m in ms):
+                        vouched = False
             out.append((q, 'on', vouched))
             out.extend((x, 'side', False) for x in sides)
     seen = set()
@@ -219,11 +247,13 @@ def on_split_boundary(cases, pdict):
     return out
 
 
+def _only_factors(t):
+    return t[0] in ('var', 'const') or (t[0] == 'mul' and all(_only_factors(s) for s in t[1:]))
+
+
 def pure_product(t):
     """c * x_j * x_k with nothing added"""
-    if t[0] == 'mul':
-        return all(s[0] in ('var', 'const') or pure_product(s) for s in t[1:]) and len(E.variables_in(t)) >= 2
-    return False
+    return t[0] == 'mul' and _only_factors(t) and len(E.variables_in(t)) >= 2
 
 
 def degenerate_lines(system):
@@ -295,7 +325,7 @@ def call_simplify(case, ctx, names, variables, text):
     lab.seed_rng(case['seed'])
     try:
         try:
-            with watchdog(4.0):
+            with watchdog(3.0):
                 out = simplify(text, **kw)
         except _Watchdog:
             ctx.exclude('simplify-timeout')
@@ -456,9 +486,390 @@ def _known_unsolved(case, subcheck, detail):
             and detail.get('output_has_empty_line') is True and detail.get('input_holds') is False)
 
 
+# =========================================================================== C12.solve
+@st.composite
+def solve_cases(draw, tier):
+    n = draw(st.integers(2, 6))
+    ne = draw(st.integers(1, min(4, n)))
+    mode = draw(st.sampled_from(['dyadic', 'dyadic', 'short', 'mixed']))
+    ck = 'dyadic' if mode == 'dyadic' else mode
+    sol = draw(E.points(n, 'dyadic' if mode == 'dyadic' else 'mixed'))
+    # full row rank by construction: reduced rows (unit pivot in distinct columns, anything in the
+    # non-pivot columns, zeros in the other pivot columns) mixed by a unit-triangular matrix
+    piv = list(draw(st.permutations(list(range(n)))))[:ne]
+    R = []
+    for r in range(ne):
+        row = [0.0] * n
+        for j in range(n):
+            if j not in piv:
+                row[j] = float(draw(E.coefficients(ck)))
+        row[piv[r]] = float(draw(E.coefficients(ck, allow_zero=False)))
+        R.append(row)
+    mix = st.sampled_from([0.0, 0.0, 1.0, -1.0, 0.5, 2.0, -2.0] if mode == 'dyadic' else [0.0, 0.0, 1.0, -1.0, 0.5, 2.0, 3.0, -0.3])
+    A = [list(r) for r in R]
+    for r in range(ne):
+        for q in range(r):
+            m = draw(mix)
+            if m:
+                A[r] = [a + m * b for a, b in zip(A[r], A[q])]
+    A = [A[i] for i in draw(st.permutations(list(range(ne))))]
+    redundant = None
+    if mode == 'dyadic' and ne < 4 and draw(st.integers(0, 4)) == 0:
+        redundant = [draw(st.integers(0, ne - 1)), draw(st.sampled_from([1.0, 2.0, -1.0, 0.5]))]
+    # how each equation is written: which terms are moved to the right-hand side
+    moved = [draw(st.lists(st.integers(0, n - 1), max_size=2, unique=True)) if draw(st.integers(0, 2)) == 0 else []
+             for _ in range(ne + 1)]
+    scheme = draw(E.naming_schemes(n, max_index=8))
+    style = {'minus': draw(st.booleans()), 'unit': draw(st.booleans())}
+    target = None
+    if draw(st.integers(0, 1)) == 0:
+        m = draw(st.integers(1, n))
+        target = list(draw(st.permutations(list(range(n)))))[:m]
+    free = draw(st.lists(E.points(n, 'dyadic' if mode == 'dyadic' else 'mixed'), min_size=3, max_size=3))
+    coef = draw(st.lists(st.lists(st.sampled_from([0.0, 1.0, -1.0, 2.0, 0.5, -3.0]), min_size=n, max_size=n), min_size=2, max_size=2))
+    return dict(nvars=n, A=A, sol=sol, redundant=redundant, moved=moved, scheme=scheme, style=style,
+                target=target, free=free, nullmix=coef, keep_zero=draw(st.booleans()))
+
+
+def solve_system(case):
+    """the equations as relation trees, b = A.sol accumulated left to right in floats"""
+    n = case['nvars']; A = [FL(r) for r in case['A']]; sol = FL(case['sol'])
+    rows = [list(r) for r in A]
+    if case['redundant'] is not None:
+        i, f = case['redundant']
+        rows.append([f * a for a in rows[i]])
+    system = []
+    for ri, row in enumerate(rows):
+        acc = 0.0
+        for a, x in zip(row, sol):
+            acc += a * x
+        mv = case['moved'][min(ri, len(case['moved']) - 1)]
+        lhs = [[j, a] for j, a in enumerate(row) if j not in mv and (a != 0 or case['keep_zero'])]
+        rhs = [[j, -a] for j, a in enumerate(row) if j in mv and a != 0]
+        if not any(a != 0 for _, a in lhs):
+            lhs = [[j, a] for j, a in enumerate(row) if a != 0]; rhs = []
+        system.append(['rel', ['lin', lhs, 0.0], '=', ['lin', rhs, acc]])
+    return system, rows
+
+
+def resolve_solved_form(lines, free_point, names):
+    """a point from the solved form: the variables on the left are computed from the right-hand
+    sides, everything else is taken from free_point.  Returns (point dict, None) or (None, reason)."""
+    parts = []
+    for l in lines:
+        lhs, cmp, rhs = E.split_line(l)
+        if cmp not in ('=', '==') or lhs not in names:
+            return None, 'line is not <variable> = <expression>: %r' % l
+        parts.append((lhs, l))
+    dep = [p[0] for p in parts]
+    if len(set(dep)) != len(dep):
+        return None, 'a variable is defined twice'
+    pd = {nm: v for nm, v in zip(names, free_point)}
+    pending = list(parts)
+    known = set(nm for nm in names if nm not in dep)
+    for _ in range(len(parts) + 1):
+        rest = []
+        for lhs, l in pending:
+            try:
+                ns = {k: pd[k] for k in known}
+                pd[lhs] = E.line_sides(l, dict(ns, **{lhs: 0.0}))[2]
+                # the right-hand side must not use variables that are still unknown
+                E.line_sides(l, dict(ns, **{lhs: 0.0}))
+                known.add(lhs)
+            except NameError:
+                rest.append((lhs, l))
+            except E.Undefined:
+                return None, 'undefined'
+        pending = rest
+        if not pending:
+            return pd, None
+    return None, 'cyclic definitions: ' + ', '.join(p[0] for p in pending)
+
+
+def run_solve(case, ctx):
+    from mystic.symbolic import solve
+    n = case['nvars']
+    names, variables = E.names_of(case['scheme'], n)
+    system, rows = solve_system(case)
+    text = E.render(system, names, case['style'])
+    exact_sys = all(exact_relation(r) for r in system) and all(E.is_short_dyadic(r[3][2], 64, 4096) for r in system)
+    ne = len(case['A'])
+    ctx.label('eqs:%d' % ne, 'free:%d' % (n - ne) if n - ne < 3 else 'free:3+', E.scheme_label(case['scheme']),
+              'exact-system' if exact_sys else 'float-system')
+    if case['redundant'] is not None: ctx.label('redundant-row')
+    if case['target'] is not None: ctx.label('opt:target')
+    if any(case['moved'][:len(rows)]): ctx.label('terms-on-both-sides')
+    Anp = np.array(rows, float)
+    sv = np.linalg.svd(Anp, compute_uv=False)
+    cond = sv[0] / sv[ne - 1] if sv[ne - 1] > 0 else math.inf
+    if cond > 1e5:
+        ctx.exclude('ill-conditioned(cond>1e5)')
+        return
+    kw = dict(variables=variables)
+    if case['target'] is not None:
+        kw['target'] = [names[i] for i in case['target']]
+    try:
+        try:
+            with watchdog(3.0):
+                out = solve(text, **kw)
+        except _Watchdog:
+            ctx.exclude('solve-timeout'); ctx.label('no-result:timeout')
+            return
+    except Exception as e:
+        ctx.exclude('solve-raised:' + type(e).__name__); ctx.label('no-result:raised')
+        return
+    if not out or not isinstance(out, str) or not out.strip():
+        ctx.exclude('solve-no-result'); ctx.label('no-result:empty')
+        return
+    lines = E.text_lines(out)
+    ctx.label('solved-lines:%s' % ('=eqs' if len(lines) == ne else '<eqs' if len(lines) < ne else '>eqs'))
+    sol = FL(case['sol'])
+    tol = 1e-9
+
+    def near_eq(line, pd):
+        # |lhs - rhs| within 1e-9 of the sum of |terms| of the line, with the size of the point as a
+        # floor ('k_4 = 0' at a null-space solution with k_4 = -1.7e-16)
+        try:
+            lv, lm, cmp, rv, rm = E.line_sides_mag(line, pd)
+        except E.Undefined:
+            return None
+        return abs(lv - rv) <= tol * (lm + rm + max(abs(v) for v in pd.values())) or lv == rv
+
+    def sys_residuals(p):
+        res = []
+        for r in system:
+            lv, rv = E.rel_sides(r, p)
+            m = E.magnitude(r[1], p) + E.magnitude(r[3], p)
+            res.append((abs(lv - rv), m))
+        return res
+
+    # (a) every solution of the system satisfies the solved form: the generated solution and
+    # two more, sol + N t with N the null space of A (numpy SVD, independent of mystic)
+    sols = [sol]
+    if n > ne:
+        u, s_, vt = np.linalg.svd(Anp)
+        N = vt[ne:]
+        for cf in case['nullmix']:
+            t = np.array(FL(cf)[:len(N)] + [0.0] * max(0, len(N) - n), float)[:len(N)]
+            if np.any(t):
+                sols.append(list(np.array(sol) + t @ N))
+    for k, p in enumerate(sols):
+        if any(d > 1e-14 * m for d, m in sys_residuals(p)):
+            ctx.exclude('solution-not-accurate-enough')
+            continue
+        pd = E.point_dict(p, names)
+        if exact_sys and k == 0 and exact_point(p):
+            ok = all(E.holds(l, pd) is True for l in lines)
+            ctx.label('exact-solution')
+        else:
+            ok = all(near_eq(l, pd) is True for l in lines)
+        ctx.expect(ok, 'C12.solve_contains', lambda p=p: dict(
+            input=text, output=out, solution=E.point_dict(p, names), options=kw,
+            lines=[[l, E.holds(l, E.point_dict(p, names), eqrel=tol)] for l in lines]))
+
+    # (b) every point of the solved form (free variables chosen, dependent ones computed from the
+    # right-hand sides) satisfies the system
+    nfree_seen = None
+    for fp in case['free']:
+        pd, why = resolve_solved_form(lines, FL(fp), names)
+        if pd is None and why == 'undefined':
+            ctx.exclude('solved-form-undefined-at-point')
+            continue
+        ctx.expect(pd is not None, 'C12.solve_form', lambda: dict(input=text, output=out, reason=why, options=kw))
+        if pd is None:
+            return
+        p = [pd[nm] for nm in names]
+        if not all(math.isfinite(v) for v in p):
+            continue
+        nfree_seen = n - len(lines)
+        res = sys_residuals(p)
+        # the dependent variables are only as accurate as the printed solved form: 15 digits of every
+        # term of their defining expression (1e-13 of its sum of |terms| leaves a factor 100)
+        delta = [0.0] * n
+        for l in lines:
+            lv, lm, cmp_, rv, rm = E.line_sides_mag(l, pd)
+            delta[names.index(E.split_line(l)[0])] = 1e-13 * rm
+        allow = [tol * m + sum(abs(a) * dl for a, dl in zip(row, delta)) for (d, m), row in zip(res, rows)]
+        ok = all(d <= al or d == 0 for (d, m), al in zip(res, allow))
+        ctx.expect(ok, 'C12.solve_sound', lambda p=p, res=res, allow=allow: dict(
+            input=text, output=out, point=E.point_dict(p, names), options=kw, cond=float(cond),
+            residual=[d for d, m in res], allowed=allow))
+    if nfree_seen and (ne >= 2 or case['target'] is not None):
+        ctx.nontrivial()
+
+
+# =========================================================================== C12.matrix
+BOUND_VALUES = [0.0, -0.0, 0.05, -0.05, 1e-5, -1e-5, 0.5, -0.5, 1.0, -1.0, 10.0, 100.0, -10.5, 0.001, 5e-6,
+                0, 1, -3, 1000000.0, 1e16, 1e-7, 0.30000000000000004, None, 'inf', '-inf']
+
+
+@st.composite
+def matrix_cases(draw, tier):
+    n = draw(st.integers(1, 5))
+    what = draw(st.sampled_from(['linear', 'linear', 'bounds']))
+    scheme = draw(E.naming_schemes(n, max_index=12))
+    pass_vars = draw(st.booleans())
+    if what == 'bounds':
+        lo, hi = [], []
+        for _ in range(n):
+            a = draw(st.one_of(st.sampled_from(BOUND_VALUES), st.floats(-100, 100).filter(E._not_tiny)))
+            b = draw(st.one_of(st.sampled_from(BOUND_VALUES), st.floats(-100, 100).filter(E._not_tiny), st.just(a)))
+            fa = -math.inf if a is None or a == '-inf' else F(a)
+            fb = math.inf if b is None or b == 'inf' else F(b)
+            if a == 'inf' or b == '-inf' or fa > fb:
+                a, b = b, a
+                a = None if a == 'inf' else a
+                b = None if b == '-inf' else b
+                a = '-inf' if a == 'inf' else a
+            lo.append(a); hi.append(b)
+        pts = []
+        for _ in range(10):
+            p = []
+            for i in range(n):
+                cands = [v for v in (lo[i], hi[i]) if v is not None and v not in ('inf', '-inf')]
+                alts = [st.sampled_from([0.0, -0.0, 0.05, -0.05, 1e-5, 0.5, 1.0, -1.0, 2.0, 50.0, -50.0]), st.floats(-100, 100)]
+                if cands:
+                    alts.append(st.sampled_from(cands).map(float))
+                    alts.append(st.sampled_from(cands).map(lambda v: math.nextafter(float(v), math.inf)))
+                    alts.append(st.sampled_from(cands).map(lambda v: math.nextafter(float(v), -math.inf)))
+                p.append(draw(st.one_of(*alts)))
+            pts.append(p)
+        return dict(what=what, nvars=n, lo=lo, hi=hi, scheme=scheme, pass_vars=pass_vars, points=pts,
+                    as_array=draw(st.booleans()))
+    mode = draw(st.sampled_from(['dyadic', 'dyadic', 'short', 'mixed']))
+    na = draw(st.integers(0, 3)); ng = draw(st.integers(0 if na else 1, 3))
+    A = [[draw(E.coefficients(mode)) for _ in range(n)] for _ in range(na)]
+    G = [[draw(E.coefficients(mode)) for _ in range(n)] for _ in range(ng)]
+    pk = 'dyadic' if mode == 'dyadic' else 'mixed'
+    x0 = draw(E.points(n, pk))
+    h = [draw(E.constants(mode)) for _ in range(ng)]
+    b_from_x0 = draw(st.integers(0, 3)) != 0          # equalities satisfiable at x0 (else arbitrary b)
+    b = None if b_from_x0 else [draw(E.constants(mode)) for _ in range(na)]
+    h_on = [draw(st.booleans()) for _ in range(ng)]    # h_i := G_i.x0 (x0 exactly on that boundary)
+    pts = draw(st.lists(E.points(n, pk), min_size=6, max_size=6))
+    shape = dict(A_flat=draw(st.booleans()), b_nested=draw(st.booleans()), G_flat=draw(st.booleans()),
+                 h_nested=draw(st.booleans()), as_array=draw(st.booleans()))
+    return dict(what=what, nvars=n, A=A, b=b, G=G, h=h, h_on=h_on, x0=x0, scheme=scheme, pass_vars=pass_vars,
+                points=pts, shape=shape)
+
+
+def _dot(row, x):
+    acc = None
+    for a, v in zip(row, x):
+        t = float(a) * float(v)
+        acc = t if acc is None else acc + t
+    return acc
+
+
+def run_matrix(case, ctx):
+    from mystic.symbolic import linear_symbolic, symbolic_bounds
+    n = case['nvars']
+    names, variables = E.names_of(case['scheme'], n)
+    ctx.label('what:' + case['what'], E.scheme_label(case['scheme']))
+    if case['scheme']['kind'] == 'base' and case['scheme']['index'] != list(range(n)):
+        # linear_symbolic / symbolic_bounds name by position: base + str(j); a sparse scheme is passed as a list
+        variables = list(names)
+    if case['scheme']['kind'] == 'list':
+        variables = list(names)               # exactly n names, in order
+    if not case['pass_vars'] and case['scheme']['kind'] == 'base' and case['scheme']['base'] == 'x' \
+            and case['scheme']['index'] == list(range(n)):
+        variables = None                      # documented default: x0, x1, ...
+        ctx.label('variables:default')
+    seen_t = seen_f = False
+    if case['what'] == 'bounds':
+        lo = [None if v is None else F(v) for v in case['lo']]
+        hi = [None if v is None else F(v) for v in case['hi']]
+        args = (np.array([(-np.inf if v is None else v) for v in lo]), np.array([(np.inf if v is None else v) for v in hi])) \
+            if case['as_array'] else (list(lo), list(hi))
+        text = symbolic_bounds(args[0], args[1], variables)
+        flo = [-math.inf if v is None else float(v) for v in lo]
+        fhi = [math.inf if v is None else float(v) for v in hi]
+        if any(v is None for v in lo + hi): ctx.label('bound:None')
+        if any(v is not None and math.isinf(v) for v in lo + hi): ctx.label('bound:inf')
+        if any(v is not None and v != 0 and abs(v) < 1 for v in lo + hi): ctx.label('bound:|v|<1')
+        if any(v is not None and v != 0 and abs(v) < 1 and v < 0 for v in lo + hi): ctx.label('bound:-0.x')
+        if any(v is not None and v == 0 and math.copysign(1, v) < 0 for v in lo + hi): ctx.label('bound:-0.0')
+        if any(a == b_ for a, b_ in zip(flo, fhi)): ctx.label('bound:min==max')
+        if not text.strip(): ctx.label('bound:empty-text')
+        for p in case['points']:
+            p = FL(p)
+            want = all(a <= v <= b_ for a, v, b_ in zip(flo, p, fhi))
+            got = E.holds_all(text, E.point_dict(p, names))
+            ctx.expect(got is want, 'C12.bounds', lambda p=p, want=want, got=got: dict(
+                min=case['lo'], max=case['hi'], text=text, point=E.point_dict(p, names), expected=want, got=got))
+            if want: seen_t = True
+            else: seen_f = True
+            if any(v in (a, b_) for a, v, b_ in zip(flo, p, fhi)): ctx.label('point-on-bound')
+        if seen_t and seen_f:
+            ctx.nontrivial()
+        return
+    A = [FL(r) for r in case['A']]; G = [FL(r) for r in case['G']]
+    x0 = FL(case['x0'])
+    b = [_dot(r, x0) for r in A] if case['b'] is None else FL(case['b'])
+    h = [(_dot(r, x0) if on else float(hv)) for r, hv, on in zip(G, FL(case['h']), case['h_on'])]
+    system = [['rel', ['lin', [[j, a] for j, a in enumerate(r)], 0.0], '<=', ['const', hv]] for r, hv in zip(G, h)] + \
+             [['rel', ['lin', [[j, a] for j, a in enumerate(r)], 0.0], '=', ['const', bv]] for r, bv in zip(A, b)]
+    sh = case['shape']
+
+    def arg(M, v, flat, nested):
+        if not M:
+            return None, None
+        M2 = [list(r) for r in M]; v2 = list(v)
+        if flat and len(M2) == 1:
+            M2 = M2[0]
+        if nested:
+            v2 = [v2]
+        if sh['as_array']:
+            M2 = np.array(M2, float); v2 = np.array(v2, float)
+        return M2, v2
+    Aarg, barg = arg(A, b, sh['A_flat'], sh['b_nested'])
+    Garg, harg = arg(G, h, sh['G_flat'], sh['h_nested'])
+    text = linear_symbolic(Aarg, barg, Garg, harg, variables)
+    ctx.label('A-rows:%d' % len(A), 'G-rows:%d' % len(G))
+    if sh['as_array']: ctx.label('ndarray-input')
+    nlines = len(E.text_lines(text))
+    ctx.expect(nlines == len(A) + len(G), 'C12.linear_symbolic', lambda: dict(
+        A=A, b=b, G=G, h=h, text=text, reason='one line per row expected', lines=nlines))
+    exact_sys = all(exact_relation(r) and E.is_short_dyadic(r[3][1], 64, 4096) for r in system)
+    pts = [(x0, True)]
+    for p in case['points']:
+        pts.append((FL(p), False))
+    # per inequality row: a point on its boundary (along one variable) and 1e-3 to either side
+    for gi, r in enumerate(system[:len(G)]):
+        vs = [j for j, a in enumerate(G[gi]) if a != 0]
+        if vs:
+            v = vs[gi % len(vs)]
+            q = E.on_boundary(r, x0, v)
+            if q is not None:
+                pts += [(q, False), (_nudge(q, v, 1e-3), False), (_nudge(q, v, -1e-3), False)]
+    for p, vouched in pts:
+        if not all(math.isfinite(v) for v in p):
+            continue
+        exact = exact_sys and exact_point(p)
+        want = E.system_truth(system, p, exact, IN_BAND, vouched and case['b'] is None)
+        if want is NEAR:
+            ctx.exclude('point:near-input-boundary')
+            continue
+        got = E.text_truth(text, E.point_dict(p, names), exact, OUT_BAND, vouched and case['b'] is None)
+        if got is NEAR:
+            ctx.exclude('point:near-output-boundary')
+            continue
+        if exact: ctx.label('exact-point')
+        ctx.expect(got == want, 'C12.linear_symbolic', lambda p=p, want=want, got=got, exact=exact: dict(
+            A=A, b=b, G=G, h=h, text=text, point=E.point_dict(p, names), expected=want, got=got, exact=exact))
+        if want is True: seen_t = True
+        if want is False: seen_f = True
+    if seen_t and seen_f:
+        ctx.nontrivial()
+
+
 TESTS = [
     Test('simplify', run_simplify, strategy=lambda tier: simplify_cases(tier),
          examples={'quick': QUICK_SIMPLIFY, 'thorough': 40000}),
+    Test('solve', run_solve, strategy=lambda tier: solve_cases(tier),
+         examples={'quick': 600, 'thorough': 15000}),
+    Test('matrix', run_matrix, strategy=lambda tier: matrix_cases(tier),
+         examples={'quick': 3000, 'thorough': 100000}),
 ]
 
 KNOWN = {'F10-sign-split-drops-zero-factor': _known_f10,
